@@ -23,6 +23,7 @@ type Profile struct {
 	EmptyPayload   float64 // probability of an empty payload per record (finding C07-K2)
 	Saturate       bool    // C08: first fill one channel with > 384 distinct idempotency keys
 	MutWeight      int     // weight of mutating ops (out of 100)
+	AppendHeavy    bool    // C08: most mutations are appends
 }
 
 type planChan struct {
@@ -348,7 +349,11 @@ func (g *planner) truncNote(c int, keepThrough uint64) {
 
 func (g *planner) mutOp(c int) Op {
 	pc := &g.ch[c]
-	switch x := g.r.IntN(100); {
+	x := g.r.IntN(100)
+	if g.p.AppendHeavy && vh.Chance(g.r, 0.5) {
+		x = g.r.IntN(60)
+	}
+	switch {
 	case x < 40:
 		return g.appendOp(c)
 	case x < 50:
